@@ -250,7 +250,7 @@ theorem freeSlot_forest_real {s : Seg} (hF : Forest s) {a : Nat} (ha : Real s a)
   | none =>
     have e : s0.unchild a = s0 := by unfold Seg.unchild; rw [hp]
     rw [e]
-    obtain ⟨hF2, hc2, hp2, _, hcop2, _⟩ := detachChildren_forest hF0 ha0
+    obtain ⟨hF2, hc2, hp2, _, hcop2, _, _⟩ := detachChildren_forest hF0 ha0
     have hsz := (detachChildren_same (s0.slots.size + 1) s0 a).size
     refine forest_of_recycled hF2 (by unfold Real; rw [hcop2]; exact ha0) (by rw [hp2]; exact hp) hc2
       (recycle_spec _ a (by rw [hsz, hs0]; exact has))
